@@ -117,8 +117,9 @@ Fixpoint delete_nth {A} (l : list A) (n : nat) : list A :=
   end.
 
 (* tickit_rectset_add.  [t l b r] are the local top/left/bottom/right, which a merge widens
-   before `goto restart`, while contains() and tickit_rect_add() keep using the caller's
-   [orig]; [i] is the loop index. *)
+   before `goto restart`; contains() and tickit_rect_add() work on the rectangle `cur` built
+   from them (since the fix "rectset add: use the current (stretched) bounds"; [orig], the
+   caller's rectangle, is no longer read).  [i] is the loop index. *)
 Fixpoint rs_add (fuel : nat) (trs : list rect) (orig : rect) (t l b r : Z) (i : nat) : res (list rect) :=
   match fuel with
   | O => NoFuel
@@ -130,7 +131,7 @@ Fixpoint rs_add (fuel : nat) (trs : list rect) (orig : rect) (t l b r : Z) (i : 
           let xr := right x in
           if b <? top x then Ok (insert_rect trs (init_bounded t l b r))        (* break *)
           else if (t >? xb) || (l >? xr) || (r <? left x) then rs_add f trs orig t l b r (S i)
-          else if r_contains x orig then Ok trs
+          else if r_contains x (init_bounded t l b r) then Ok trs
           else
             let top_eq := t =? top x in
             let bottom_eq := b =? xb in
@@ -140,7 +141,7 @@ Fixpoint rs_add (fuel : nat) (trs : list rect) (orig : rect) (t l b r : Z) (i : 
               rs_add f (delete_nth trs i) orig (Z.min t (top x)) (Z.min l (left x)) (Z.max b xb) (Z.max r xr) O
             else if (t =? xb) || (b =? top x) then rs_add f trs orig t l b r (S i)
             else
-              let to_add := r_add x orig in
+              let to_add := r_add x (init_bounded t l b r) in
               fold_res (fun acc p => rs_add f acc p (top p) (left p) (bottom p) (right p) O)
                        to_add (delete_nth trs i)
       end
